@@ -25,7 +25,7 @@ let pos_of_decimal (s : string) : positive =
   match !acc with Npos p -> p | N0 -> failwith "zero weight"
 
 let split_on c s = List.filter (fun x -> x <> "") (String.split_on_char c s)
-let opt_n s = if s = "-" then None else Some (n_of_int (int_of_string s))
+let opt_n s = if s = "-" then None else if s = "0" then Some N0 else Some (Npos (pos_of_decimal s))
 
 type iout = INone | ISome of int | IUnit | IPanic of string
 
